@@ -6,7 +6,8 @@ Protocol (one case per line; tokens contain no blanks):
   mock_pattern <type> r<row>...        from_pattern(rows) ('_' stands for ' '): `MAP [..] AA rect DBG text` or `PANIC kind`
   p_mock_hist / p_mock_eq / p_mock_pattern: the same inputs judged on the implementation alone against an independent map.
 tokens: dp:x:y:c  di:x:y:c;x:y:c;..  fs:x:y:w:h:c  fc:x:y:w:h:c,c,..  cl:c  sp:x:y:(c|n)  ao:b  ab:b      (operations)
-        gp:x:y  aa  dump  sw  dbg                                                                       (probes)
+        gp:x:y  aa  dump  sw  dbg  mp:k (dump of map(raw -> (raw + k) mod #values))                      (probes)
+  mock_points <type> <c> x:y...        from_points(points, c): `[map] AA rect` or `PANIC setpixel`
 colours are raw values of the colour type.
 """
 from common import *
@@ -159,8 +160,10 @@ def history(rng, t, n, ao, ab, nops, probes=True, fresh=None):
                 toks.append('aa')
             elif j < 0.85:
                 toks.append('dump')
-            elif j < 0.93:
+            elif j < 0.9:
                 toks.append('sw')
+            elif j < 0.95:
+                toks.append('mp:%d' % rng.choice([0, 1, n - 1, rng.randrange(n)]))
             else:
                 toks.append('dbg')
     if probes:
@@ -211,7 +214,20 @@ def one_cell_pairs(rng, suite):
             yield J(suite, t, *base, *extra, '/', *base, *extra)
 
 
+def point_lists(rng, suite, count):
+    for i in range(count):
+        t, n = TYPES[i % len(TYPES)]
+        m = rng.choice([0, 1, 2, 3, 8, 30])
+        pts = [inpt(rng) for _ in range(m)]
+        if pts and rng.random() < 0.3:
+            pts.append(rng.choice(pts))            # repeated points are fine for set_pixels
+        if rng.random() < 0.35:
+            pts.insert(rng.randrange(len(pts) + 1), outpt(rng))
+        yield J(suite, t, color(rng, t, n), *['%d:%d' % p for p in pts])
+
+
 def cases(tier, rng):
+    yield from point_lists(rng, 'mock_points', 150 if tier == 'quick' else 2000)
     n_hist = 2200 if tier == 'quick' else 30000
     for i in range(n_hist):
         t, n = TYPES[i % len(TYPES)] if rng.random() < 0.5 else rng.choice(TYPES[:4] + TYPES[8:])
@@ -246,6 +262,7 @@ def cases(tier, rng):
 
 
 def search(tier, rng):
+    yield from point_lists(rng, 'p_mock_points', 150 if tier == 'quick' else 2000)
     n_hist = 1500 if tier == 'quick' else 20000
     for i in range(n_hist):
         t, n = TYPES[i % len(TYPES)] if rng.random() < 0.5 else rng.choice(TYPES[:4] + TYPES[8:])
